@@ -400,8 +400,11 @@ Definition parallels_new_ok (l0 : line) (t : Z) : bool :=
   let par := bparams_new l in
   let perp := bparams_new (perpendicular l) in
   bparams_new_ok l && perpendicular_ok l && bparams_new_ok (perpendicular l) &&
-  (* (i64::from(thickness) * 2).pow(2) * i64::from(line.delta().length_squared()) *)
-  i64 (t * 2) && i64 ((t * 2) * (t * 2)) && line_delta_ok l && length_squared_ok (line_delta l) &&
+  (* delta = line.delta(); length_squared = i64::from(delta.x).pow(2) + i64::from(delta.y).pow(2);
+     (i64::from(thickness) * 2).pow(2) * length_squared   (thick_points.rs:98-100, 64 bit since ebfcc70) *)
+  line_delta_ok l && i64 (px (line_delta l) * px (line_delta l)) && i64 (py (line_delta l) * py (line_delta l)) &&
+  i64 (length_squared (line_delta l)) &&
+  i64 (t * 2) && i64 ((t * 2) * (t * 2)) &&
   i64 (thickness_threshold l0 t) &&
   (* (error_step.minor + error_step.major) / 2 *)
   i32 (error_step_minor par + error_step_major par) &&
